@@ -42,8 +42,22 @@ def parse_source(src):
     def strip_comments(t):
         return re.sub(r"//[^\n]*", "", t)
 
+    # numeric constants of the function (a table entry or the digamma test may name one instead of a literal)
+    consts = {m.group(1): int(m.group(2).replace("_", ""), 0)
+              for m in re.finditer(r"\bconst\s+([A-Z][A-Z0-9_]*)\s*:\s*u32\s*=\s*(0x[0-9A-Fa-f_]+|\d[\d_]*)\s*;", strip_comments(src))}
+
+    def num(x):
+        x = x.strip()
+        x = re.sub(r"(?:_?u32)$", "", x)
+        if x in consts:
+            return consts[x]
+        try:
+            return int(x.replace("_", ""), 0)
+        except ValueError:
+            raise GenError("cannot evaluate %r as a number" % x)
+
     vb = strip_comments(block("static MATH_VARIANTS", "MATH_VARIANTS"))
-    variants = [(m.group(1), [int(x.strip(), 0) for x in m.group(2).split(",")])
+    variants = [(m.group(1), [num(x) for x in m.group(2).split(",") if x.strip()])
                 for m in re.finditer(r'"([^"]+)"\s*=>\s*\[([^\]]*)\]', vb)]
     sb = strip_comments(block("static SHIFT_AMOUNTS", "SHIFT_AMOUNTS"))
     shifts = [(m.group(1), int(m.group(2)), int(m.group(3)))
@@ -59,10 +73,10 @@ def parse_source(src):
     if len(re.findall(r"=>", vb)) != len(variants):
         raise GenError("MATH_VARIANTS: unparsed entries")
     # digamma arms:   if char_mapping[2] == 0x1D6A8 { match ch { 'Ϝ' => '𝟊', 'ϝ' => '𝟋', _ => ch } }
-    mc = re.search(r"if\s+char_mapping\[(\d)\]\s*==\s*(0x[0-9A-Fa-f]+)\s*\{\s*match ch\s*\{(.*?)\}", body, re.S)
+    mc = re.search(r"if\s+char_mapping\[(\d)\]\s*==\s*(0x[0-9A-Fa-f]+|[A-Z][A-Z0-9_]*)\s*\{\s*match ch\s*\{(.*?)\}", body, re.S)
     if not mc:
         raise GenError("digamma special case not found")
-    dig_idx, dig_cond = int(mc.group(1)), int(mc.group(2), 16)
+    dig_idx, dig_cond = int(mc.group(1)), num(mc.group(2))
     digammas = [(ord(m.group(1)), ord(m.group(2))) for m in re.finditer(r"'(.)'\s*=>\s*'(.)'", mc.group(3))]
     return dict(variants=variants, shifts=shifts, exceptions=exceptions, digamma_idx=dig_idx, digamma_cond=dig_cond,
                 digammas=digammas, span=(line0, line1))
